@@ -100,6 +100,9 @@ func dev(args []string) {
 				fmt.Fprintf(&sb, "; %s\n(push 1)\n(assert %s)\n(check-sat)\n(pop 1)\n", o.Name, o.Cond)
 			}
 			os.WriteFile(*dump+"/"+sanitize(tr.Name)+".smt2", []byte(sb.String()), 0o644)
+			for _, o := range tr.Obls {
+				os.WriteFile(*dump+"/"+sanitize(o.Name)+".smt2", []byte(tr.ScriptFor(o.Cond)+"(assert "+o.Cond+")\n(check-sat)\n"), 0o644)
+			}
 		}
 		t2 := time.Now()
 		rs := vc.Solve(tr, opts)
